@@ -64,17 +64,42 @@ class C07(Prop):
             if i % 5 == 0:
                 # the same instance object queried, grown through the public API, and queried again
                 c2 = gen.ordinal_case(rng, m=rng.randint(2, 6), n=rng.randint(1, 4))
-                yield {"kind": "grow", "first": [o for o, _ in c["profile"]], "more": [o for o, _ in c2["profile"]]}
+                first = [o for o, _ in c["profile"]]
+                more = [o for o, _ in c2["profile"]]
+                if rng.random() < 0.6:
+                    # ballots already cast are cast again, some of them several times in the same batch
+                    for _ in range(rng.randint(1, 3)):
+                        more = more + [rng.choice(first)] * rng.randint(1, 3)
+                    if rng.random() < 0.5:
+                        more = [o for o in more if o in first]      # nothing new: only repeats
+                    rng.shuffle(more)
+                if more:
+                    yield {"kind": "grow", "first": first, "more": more}
 
     def run_impl(self, case):
         if case["kind"] == "grow":
             from preflibtools.instances import OrdinalInstance
             inst = OrdinalInstance()
             stages = []
-            for batch in (case["first"], case["more"]):
-                inst.append_order_list([tuple(tuple(c) for c in o) for o in batch])
-                snap = {"type": inst.data_type, "alts": [int(a) for a in inst.alternatives_name],
-                        "profile": [[[list(c) for c in o], int(m)] for o, m in inst.multiplicity.items()]}
+            truth = {}          # what was cast so far, whatever the instance recorded
+            for k, batch in enumerate((case["first"], case["more"])):
+                grouped = {}
+                for o in batch:
+                    key = tuple(tuple(c) for c in o)
+                    grouped[key] = grouped.get(key, 0) + 1
+                    truth[key] = truth.get(key, 0) + 1
+                grouped = list(grouped.items())
+                vias = gen._entry_points(grouped)
+                via = vias[(gen._stable(case) >> (4 * k)) % len(vias)]
+                gen._add_batch(inst, grouped, via)
+                alts = []
+                for o in truth:
+                    for c in o:
+                        for a in c:
+                            if a not in alts:
+                                alts.append(a)
+                snap = {"type": gen.infer_type(list(truth), len(alts)), "alts": alts,
+                        "profile": [[[list(c) for c in o], int(m)] for o, m in truth.items()], "via": via}
                 stages.append({"snap": snap, "obs": self._query(inst, snap)})
             self.count("grow")
             return {"stages": stages}
@@ -127,7 +152,7 @@ class C07(Prop):
             for k, (st, rep) in enumerate(zip(obs["stages"], replies)):
                 for p in self._judge_one(dict(st["snap"], kind="tables"), st["obs"], rep):
                     p.case = case
-                    p.what = f"after append_order_list call {k + 1} on the same instance: " + p.what
+                    p.what = f"after growing the same instance (stage {k + 1}, through {st['snap'].get('via')}): " + p.what
                     out.append(p)
             return out
         return self._judge_one(case, obs, replies[0])
